@@ -18,6 +18,9 @@ for mp in sorted(glob.glob(os.path.join(HERE, "seeded", "*", "meta.json"))):
             os.makedirs(os.path.join(scratch, sub))
             subprocess.run("git -C /repo archive HEAD | tar -x -C %s" % os.path.join(scratch, sub), shell=True, check=True)
         ap = subprocess.run(["git", "apply", os.path.join(d, "patch.diff")], cwd=os.path.join(scratch, "mut"), capture_output=True)
+        if ap.returncode:   # context shifted by later fix: commits: patch(1) with fuzz
+            ap = subprocess.run("patch -p1 -s -F3 --no-backup-if-mismatch < %s" % os.path.join(d, "patch.diff"), shell=True,
+                                cwd=os.path.join(scratch, "mut"), capture_output=True)
         env = dict(os.environ, PYTHONDONTWRITEBYTECODE="1")
         rc = {}
         for sub in ("clean", "mut"):
